@@ -19,7 +19,13 @@ def main(tier, seed):
     ck = Check("C17", tier, seed)
     tf = use_impl()
     rng = random.Random(seed)
-    b = ck.build_proofs("Prop_C17", extra_targets=["Run.vo"])
+    refused = []
+
+    def regen():
+        # the identity / operator table of query objects is regenerated from queries.py and proved equal to the model's (proofs/QueryGenP.v)
+        rc, out = sh([PY, str(VERIF / "harness" / "py2coq_query.py"), str(REPO / "tinyflux" / "queries.py"), str(COQ / "gen" / "QueryGen.v")], timeout=60)
+        refused.extend(l for l in out.splitlines() if l.startswith("REFUSED"))
+    b = ck.build_proofs("Prop_C17", pre=regen, extra_targets=["Run.vo"])
     univ = qtie.universe()
     rpts = [M.real_point(tf, p) for p in univ]
     vocab, raising = qtie.vocabulary()
@@ -123,6 +129,8 @@ def main(tier, seed):
         ck.violation({"kind": "correspondence-broken", "what_no_longer_checks": "correspondence Query.qeq/qhash (theorems C17_*) vs __eq__/is_hashable",
                       **what, "disagreeing_rows": len(nums) - 1}, no_input=True)
     ck.cov = {
+        "translator": {"source": "tinyflux/queries.py: every place a query object gets its _hash key, its test operator, its == -> coq/gen/QueryGen.v (regenerated on this run)",
+                       "refused": refused, "equivalence_theorems": "enc_eqb, gen_qhash_eq, gen_qeq_eq, gen_tables (proofs/QueryGenP.v)"},
         "obligations": b["obligations"], "discharged": b["discharged"],
         "checker_cmd": "make -C /verif/coq Prop_C17.vo Run.vo (coqc, full .vo); Print Assumptions per theorem; qeq evaluated on all pairs with vm_compute",
         "trusted_base": TRUSTED_BASE_COMMON + ["hand model Query.v (qhash, hv_eqb, qeq) tied by correspondence", "twin table",
